@@ -346,6 +346,14 @@ def instances(tier, seed):
     exprs = [binary("sub", num(1, 2), u), binary("add", u, v), binary("mul", u, v), slice_("t", 1, 5, 2, 6), binary("add", slice_("t", 0, 3, 1, 3), u),
              binary("max", u, v), binary("min", v, num(1, 3)), subs(leaf("ix", (("k", 3),), (), ("int", 4)), (("k", v),)),
              binary("add", leaf("ix", (("k", 3),), (), ("int", 4)), u), binary("floordiv", binary("add", v, u), num(2, 3)), binary("mod", v, num(2, 3))]
+    # every Slice over small ranges (full-range strided ones included), alone and inside arithmetic
+    for n in range(1, 5 if tier == "quick" else 7):
+        for start in range(n):
+            for stop in range(start + 1, n + 1):
+                for step in (1, 2, 3):
+                    exprs.append(slice_("t", start, stop, step, n))
+                    if (start + stop + step) % 3 == 0:
+                        exprs.append(binary("add", slice_("t", start, stop, step, n), u))
     out += [("materialize", e) for e in exprs]
     return out
 
@@ -356,7 +364,7 @@ def main():
     chk.map("checks.c19", "worker", insts, chunksize=8)
     chk.bounds = dict(roundtrip="rank 0-4|5, sizes 1-3, every named subset (seeded subset in quick), event rank 0-2, real and Bint dtypes, optional align in between",
                       align="every (partial) permutation of <= 4 inputs (seeded subset at 4 in quick); Tensor.align, Align, lazy Binary.align, Contraction.align",
-                      materialize="11 lazy integer expressions")
+                      materialize="11 lazy integer expressions + every Slice(start, stop, step) over ranges of size 1-4|6, alone and inside a sum")
     chk.assumptions = ["these operations are parametric in the contents, so the solver queries are syntactically trivial: the quantifier that matters is the enumerated structure (each cell is a distinct symbol, so a moved cell is a different term)",
                        "Engine B (bookkeeping with unbounded sizes): interning constructors and funsor.ops.permute replaced by stubs, the array is a recording stub (shape, axis provenance); Gaussian.align / Delta.align covered under C12/C14"]
     chk.floor = 200
